@@ -365,6 +365,12 @@ func (e *kvElection) becomeLeader(token string, rev uint64) {
 		}
 	}
 
+	// Stop is final: an acquisition that completes after the election was
+	// stopped must not claim leadership.
+	if fromState == StateStopped || e.ctx == nil {
+		return
+	}
+
 	e.isLeader.Store(true)
 	e.leaderID.Store(e.cfg.InstanceID)
 	e.token.Store(token)
@@ -481,6 +487,11 @@ func (e *kvElection) becomeFollower() {
 		if str, ok := s.(string); ok {
 			fromState = str
 		}
+	}
+
+	// Stop is final: a late demotion must not turn STOPPED into FOLLOWER.
+	if fromState == StateStopped {
+		return
 	}
 
 	wasLeader := e.isLeader.Load()
